@@ -216,4 +216,3 @@ func (d *digester) refl(v reflect.Value, depth int) string {
 	}
 	return fmt.Sprint(v)
 }
-
